@@ -262,14 +262,16 @@ class CollisionArray:
                             basisSizeFile = size
                             basisTypeFile = btype
                         else:
-                            assert (
-                                size == basisSizeFile
-                            ), """CollisionArray error: All the collision files must
+                            if size != basisSizeFile:
+                                raise CollisionLoadError(
+                                    """CollisionArray error: All the collision files must
                             have the same basis size."""
-                            assert (
-                                btype == basisTypeFile
-                            ), """CollisionArray error: All the collision files must
+                                )
+                            if btype != basisTypeFile:
+                                raise CollisionLoadError(
+                                    """CollisionArray error: All the collision files must
                             have the same basis type."""
+                                )
 
                         collisionFileArray[i, :, :, j, :, :] = collisionDataset
                         
